@@ -249,6 +249,20 @@ def step (σ : St) (op obs : List String) : St × List Msg :=
   | ["put", t, ls, _, _], "S" :: s :: e :: rest =>
     stepTimed σ (toInt! t) (some { ls := canon (parseKVs ls), starts := toInt! s, ends := toInt! e }) rest s!"put@{t}"
   | ["adv", t], rest => stepTimed σ (toInt! t) none rest s!"adv@{t}"
+  | ["stress", t, toks], "G" :: _ :: groups =>
+    -- concurrent burst: only the quiescent partition is checked (spec predicates on `Groups()`)
+    match σ.model with
+    | none => (σ, [.diff "op" "not-started" "stress"])
+    | some m =>
+      let now := toInt! t
+      let burst : List TAlert := (splitList ";" toks).filterMap fun tok =>
+        match tok.splitOn "~" with
+        | [ls, r] => some { ls := canon (parseKVs ls), starts := now - 60000000000,
+                            ends := if r = "1" then now - 1000000 else now + 3600000000000 }
+        | _ => none
+      let known := (σ.known.filter fun (x : TAlert) => !(burst.any fun b => b.ls = x.ls)) ++ burst
+      let σ' := { σ with known, gs := [] }
+      (σ', groupsChecks σ' m now (groups.filterMap parseGroup) s!"stress@{t}" ++ [.tag "stress:quiescent-partition-checked"])
   | _, "error" :: _ => (σ, [.diff "op" "ok" "error"])
   | _, _ => (σ, [.diff "parse" "?" (" ".intercalate op)])
 
